@@ -10,6 +10,7 @@ import Driver.SchedCmd
 import Driver.LruCmd
 import Driver.CodecCmd
 import Driver.PickCmd
+import Driver.BuilderCmd
 /-
 `raindrv`: one request per line on stdin, one answer per line on stdout.
 Unknown or malformed requests answer `bad-request` (never a default value).
@@ -33,6 +34,7 @@ def dispatch (toks : List String) : String :=
       else if cmd.startsWith "lru." then lruCmd toks
       else if cmd.startsWith "batch." || cmd.startsWith "edit." then codecCmd toks
       else if cmd.startsWith "pick." then pickCmd toks
+      else if cmd.startsWith "builder." then builderCmd toks
       else none
     match r with
     | some s => s
